@@ -227,6 +227,9 @@ func (eval Evaluator) Add(op0 *rlwe.Ciphertext, op1 rlwe.Operand, opOut *rlwe.Ci
 			for i := 1; i < op0.Degree()+1; i++ {
 				opOut.Value[i].CopyLvl(level, op0.Value[i])
 			}
+
+			// The result has the scale (and the other metadata) of op0
+			*opOut.MetaData = *op0.MetaData
 		}
 
 	case uint64:
@@ -504,6 +507,11 @@ func (eval Evaluator) Mul(op0 *rlwe.Ciphertext, op1 rlwe.Operand, opOut *rlwe.Ci
 
 		for i := 0; i < op0.Degree()+1; i++ {
 			ringQ.MulScalarBigint(op0.Value[i], op1, opOut.Value[i])
+		}
+
+		// The result has the scale (and the other metadata) of op0
+		if op0 != opOut {
+			*opOut.MetaData = *op0.MetaData
 		}
 
 	case uint64:
